@@ -303,8 +303,9 @@ func (rm *RequestManager) processResponses(p peer.ID,
 		attribute.Int("blockCount", len(blks)),
 	))
 	defer span.End()
-	filteredResponses := rm.processExtensions(responses, p)
-	filteredResponses = rm.filterResponsesForPeer(filteredResponses, p)
+	// only responses from the peer a request was sent to may reach hooks or affect the request
+	filteredResponses := rm.filterResponsesForPeer(responses, p)
+	filteredResponses = rm.processExtensions(filteredResponses, p)
 	blkMap := make(map[cid.Cid][]byte, len(blks))
 	for _, blk := range blks {
 		blkMap[blk.Cid()] = blk.RawData()
